@@ -308,3 +308,50 @@ Proof.
 Qed.
 
 End LinkLattice.
+
+(* ---- non-vacuity: the hypotheses of the two theorems hold on a concrete run --------------------
+   (a degenerate surface instance - every surface is its own image and everything is on its
+   positive side - satisfies both laws; the table, the element and the chain are concrete) *)
+Definition ex_sense (o : nat) (p : @M6.vec R) : bool := true.
+Definition ex_trs (t : list R) (o : nat) : nat := o.
+Definition ex_inv (t : list R) (p : @M6.vec R) : @M6.vec R := p.
+Definition ex_teqb (a b : list R) : bool := false.
+
+Definition ex_t12 : list R := [3; 0; 0; 1; 0; 0; 0; 1; 0; 0; 0; 1]%R.
+Definition ex_elem : @M6.new_elem R := M6.mkElem [1] ex_t12 None ex_t12.
+
+(* cell 1 (level 0) filled with universe 1; universe 1 = the lattice cell 5 *)
+Definition ex_lat_state : state (list R) nat :=
+  mkSt [ (1, mkCell 0 0 (TSurf (-1)) 1 0 (Some 1) None 0 [] []);
+         (5, mkCell 7 2 (TSurf (-1)) 1 1 None None 1 [] []) ]
+       [(1, 0%nat)] 5 1 [] [].
+
+Definition ex_a1 := match trcl_phase (list R) nat (@M6.is_nil R) ex_teqb ex_trs 5
+                            (map fst (s_cells ex_lat_state)) ex_lat_state
+                    with Ok s => s | Err _ => ex_lat_state end.
+Definition ex_a2 := match L6.develop_state nat ex_teqb ex_trs 5 5 [ex_elem] ex_a1
+                    with Ok r => r | Err _ => ([], ex_a1) end.
+Definition ex_a3 := match fill_phase (list R) nat (@M6.is_nil R) ex_teqb ex_trs 5 5 false false
+                            (del_cell (list R) nat (snd ex_a2) 5)
+                    with Ok r => r | Err _ => ([], snd ex_a2) end.
+Definition ex_a4 := match inline_cells (list R) 9 1 1 (s_cells (snd ex_a3))
+                    with Ok c => c | Err _ => [] end.
+
+Lemma ex_lat_runs :
+  (forall t o p, ex_sense (ex_trs t o) p = ex_sense o (ex_inv t p)) /\
+  (forall a b, ex_teqb a b = true ->
+     M6.is_nil a = M6.is_nil b /\ forall p, ex_inv a p = ex_inv b p) /\
+  trcl_phase (list R) nat (@M6.is_nil R) ex_teqb ex_trs 5 (map fst (s_cells ex_lat_state)) ex_lat_state
+    = Ok ex_a1 /\
+  dget 5 (s_cells ex_a1) = Some (mkCell 7 2 (TSurf (-1)) 1 1 None None 1 [] []) /\
+  L6.develop_state nat ex_teqb ex_trs 5 5 [ex_elem] ex_a1 = Ok ex_a2 /\
+  fill_phase (list R) nat (@M6.is_nil R) ex_teqb ex_trs 5 5 false false
+             (del_cell (list R) nat (snd ex_a2) 5) = Ok ex_a3 /\
+  inline_cells (list R) 9 1 1 (s_cells (snd ex_a3)) = Ok ex_a4 /\
+  fst ex_a2 = [6] /\ fst ex_a3 = [[7]].
+Proof.
+  split; [reflexivity|]. split; [discriminate|].
+  split; [vm_compute; reflexivity|]. split; [vm_compute; reflexivity|].
+  split; [vm_compute; reflexivity|]. split; [vm_compute; reflexivity|].
+  split; [vm_compute; reflexivity|]. split; vm_compute; reflexivity.
+Qed.
